@@ -27,14 +27,24 @@ Theorem c09_number_never_silent : forall s sev ds,
 Proof. exact read_number_never_silent. Qed.
 Print Assumptions c09_number_never_silent.
 
+(* the recovery after a bad value never runs past the end of the instance: garbage u that holds no delimiter is skipped
+   up to the semicolon, the stream is left at it, and the severity is the unrecoverable one *)
+Theorem c09_semicolon_stops_recovery : forall u r s sev,
+  eofb s = false -> clean u -> u <> [] -> (forall c, In c u -> is_space c = false) -> rest s = u ++ 59%N :: r ->
+  check_remaining s sev (Some DELIMS) = (greater sev SEVERITY_INPUT_ERROR, mkS (59%N :: r) false false).
+Proof. exact semicolon_stops_recovery. Qed.
+Print Assumptions c09_semicolon_stops_recovery.
+
 (* an integer that is assigned fits a 64-bit long *)
 Theorem c09_integer_in_range : forall s v s', s_read_long s = (Some v, s') -> LONG_MIN <= v <= LONG_MAX.
 Proof. exact s_read_long_range. Qed.
 Print Assumptions c09_integer_in_range.
 
 (* The delimiter that follows is never consumed: for ANY text t without a
-   delimiter, followed by a delimiter d and anything r, each reader ends
-   positioned exactly at d :: r with a usable stream. *)
+   delimiter (and without the semicolon that would end the instance: the recovery
+   of CheckRemainingInput stops there, see c09_semicolon_stops_recovery), followed by
+   a delimiter d and anything r, each reader ends positioned exactly at d :: r with a
+   usable stream. *)
 Theorem c09_integer_delimiter_kept : forall t d r sev,
   in_delims DELIMS d = true -> clean t ->
   let '(_, _, s') := read_integer (of_bytes (t ++ d :: r)) sev (Some DELIMS) in
